@@ -161,12 +161,14 @@ def run_corr(pid, name, imports, case_type, cases, lit, agree, shard=250, timeou
 
     with ThreadPoolExecutor(NCPU) as ex:
         outs = list(ex.map(one, files))
+    shown = 0   # the model's value is printed for the first two disagreeing shards only (one extra coqc run each)
     for k, (rc, out) in enumerate(outs):
         idx = parse_natlist(out) if rc == 0 else None
         if idx is None:
             res.errors.append({"shard": files[k], "rc": rc, "output": out[-2000:]})
             continue
-        if idx and show:
+        if idx and show and shown < 2:
+            shown += 1
             p = files[k][:-2] + "_show.v"
             with open(files[k]) as fh:
                 src = fh.read().rsplit("Eval vm_compute", 1)[0]
